@@ -24,7 +24,7 @@ def run(ck, rng):
     for doc in docs:
         mode = rng.choice(["d 0", "d 0", "j 0", "d 1"])
         bf = rng.choice(BF_CHOICES)
-        exts = rng.choice([[], [b".go"], [b".go", b".md", b"Makefile"], [b"a", b"b"], [b""]]) if mode == "d 1" else []
+        exts = rng.choice([[], [b".go"], [b".go", b".md", b"Makefile"], [b"a", b"b"], [b""], [b".go", b" .md"], [b".md ", b"\t.go"], [b" "]]) if mode == "d 1" else []
         tail = "%s %s %s" % (bf_args(bf), hxlist(exts), hx(doc))
         dcases.append("out %s %s %s" % (mode, rng.choice("01"), tail))
         wcases.append("wasm %s 0 %s" % (mode, tail))
